@@ -305,9 +305,19 @@ struct Cfg {
     trading: String,
     k: usize,
     x2: bool,
+    /// configuration shape `x2 = 2`: the exchange without execution link is `ExchangeId::Other`, which sorts BEFORE
+    /// the mocked exchange: the mocked exchange is ExchangeIndex(1), its instruments / assets follow the other one's
+    x2_first: bool,
+    /// configuration shape `sysb`: the builder calls in the order given (any order, setters repeated)
+    calls: Option<Vec<String>>,
     quote: Decimal,
     base: Decimal,
     latency_ms: u64,
+}
+
+/// the exchange without execution link
+fn ex1(cfg: &Cfg) -> ExchangeId {
+    if cfg.x2_first { ExchangeId::Other } else { EX[1] }
 }
 
 fn instruments(cfg: &Cfg) -> IndexedInstruments {
@@ -323,7 +333,7 @@ fn instruments(cfg: &Cfg) -> IndexedInstruments {
     }
     if cfg.x2 {
         b = b.add_instrument(Instrument::spot(
-            EX[1],
+            ex1(cfg),
             format!("i{}", cfg.k),
             format!("I{}", cfg.k),
             Underlying::new(format!("b{}", cfg.k), "q".to_string()),
@@ -346,7 +356,7 @@ impl Labels {
     fn new(ii: &IndexedInstruments, cfg: &Cfg) -> Self {
         let n_ex = if cfg.x2 { 2 } else { 1 };
         let ex_idx = (0..n_ex)
-            .map(|l| ii.exchanges().iter().position(|e| e.value == EX[l]).unwrap())
+            .map(|l| ii.exchanges().iter().position(|e| e.value == if l == 0 { EX[0] } else { ex1(cfg) }).unwrap())
             .collect();
         let n_ins = cfg.k + cfg.x2 as usize;
         let ins_idx = (0..n_ins)
@@ -392,7 +402,12 @@ fn key(l: &Labels, ex: usize, ins: usize, cid: &str) -> OrderKey<ExchangeIndex, 
         exchange: ExchangeIndex(l.ex_idx[ex]),
         instrument: InstrumentIndex(l.ins_idx[ins]),
         strategy: StrategyId::new("verif"),
-        cid: ClientOrderId::new(cid),
+        // ids 9000 + <instrument LABEL> collide on purpose with the close-position id generator (9000 + InstrumentIndex):
+        // translated like every other label (identity unless the unlinked exchange sorts first, x2 = 2)
+        cid: ClientOrderId::new(match cid.parse::<usize>() {
+            Ok(n) if (9000..9100).contains(&n) && n - 9000 < l.ins_idx.len() => format!("{}", 9000 + l.ins_idx[n - 9000]),
+            _ => cid.to_string(),
+        }),
     }
 }
 
@@ -669,17 +684,36 @@ async fn build(cfg: Cfg, lines: &mut Vec<String>) -> Running {
         IData::default,
     );
     let mut builder = SystemBuilder::new(args);
+    if let Some(calls) = &cfg.calls {
+        for c in calls {
+            builder = match c.as_str() {
+                "f=iter" => builder.engine_feed_mode(EngineFeedMode::Iterator),
+                "f=stream" => builder.engine_feed_mode(EngineFeedMode::Stream),
+                "a=on" => builder.audit_mode(AuditMode::Enabled),
+                "a=off" => builder.audit_mode(AuditMode::Disabled),
+                "t=on" => builder.trading_state(TradingState::Enabled),
+                "t=off" => builder.trading_state(TradingState::Disabled),
+                other => panic!("bad builder call {other}"),
+            };
+        }
+    }
+    // (with `sysb` the three fields below hold what the LAST call of each setter said - read by the harness's own
+    // replay / final block only - and the calls above are the only ones made)
+    let by_fields = cfg.calls.is_none();
     builder = match cfg.feed.as_str() {
+        _ if !by_fields => builder,
         "iter" => builder.engine_feed_mode(EngineFeedMode::Iterator),
         "stream" => builder.engine_feed_mode(EngineFeedMode::Stream),
         _ => builder,
     };
     builder = match cfg.audit.as_str() {
+        _ if !by_fields => builder,
         "on" => builder.audit_mode(AuditMode::Enabled),
         "off" => builder.audit_mode(AuditMode::Disabled),
         _ => builder,
     };
     builder = match cfg.trading.as_str() {
+        _ if !by_fields => builder,
         "on" => builder.trading_state(TradingState::Enabled),
         "off" => builder.trading_state(TradingState::Disabled),
         _ => builder,
@@ -958,10 +992,45 @@ fn run_case(case: &Case, lines: &mut Vec<String>) {
                         audit: op[2].clone(),
                         trading: op[3].clone(),
                         k: op[4].parse().unwrap(),
-                        x2: op[5] == "1",
+                        x2: op[5] != "0",
+                        x2_first: op[5] == "2",
+                        calls: None,
                         quote: parse_dec(&op[6]),
                         base: parse_dec(&op[7]),
                         latency_ms: op[8].parse().unwrap(),
+                    };
+                    if !["0", "1", "2"].contains(&op[5].as_str()) {
+                        lines.push("bad-op".into());
+                        continue;
+                    }
+                    run = Some(build(cfg, lines).await);
+                }
+                // configuration shape: `sysb <calls|-> <k> <x2> <quote> <base> <latency>`: the builder calls
+                // (`f=iter|f=stream|a=on|a=off|t=on|t=off`, comma separated) in ANY order, setters repeated
+                "sysb" => {
+                    let calls: Vec<String> =
+                        if op[1] == "-" { vec![] } else { op[1].split(',').map(|c| c.to_string()).collect() };
+                    let ok = calls.iter().all(|c| ["f=iter", "f=stream", "a=on", "a=off", "t=on", "t=off"].contains(&c.as_str()))
+                        && ["0", "1", "2"].contains(&op[3].as_str())
+                        && op.len() == 7;
+                    if !ok {
+                        lines.push("bad-op".into());
+                        continue;
+                    }
+                    let last = |p: &str| -> String {
+                        calls.iter().rev().find(|c| c.starts_with(p)).map(|c| c[2..].to_string()).unwrap_or("dflt".into())
+                    };
+                    let cfg = Cfg {
+                        feed: last("f="),
+                        audit: last("a="),
+                        trading: last("t="),
+                        k: op[2].parse().unwrap(),
+                        x2: op[3] != "0",
+                        x2_first: op[3] == "2",
+                        calls: Some(calls),
+                        quote: parse_dec(&op[4]),
+                        base: parse_dec(&op[5]),
+                        latency_ms: op[6].parse().unwrap(),
                     };
                     run = Some(build(cfg, lines).await);
                 }
@@ -994,7 +1063,7 @@ fn run_case(case: &Case, lines: &mut Vec<String>) {
                                     Some(react) => format!("{id}:{react}"),
                                     None => format!("{id}"),
                                 };
-                                let ex = if i < r.cfg.k { EX[0] } else { EX[1] };
+                                let ex = if i < r.cfg.k { EX[0] } else { ex1(&r.cfg) };
                                 let ev = MarketStreamEvent::Item(MarketEvent {
                                     time_exchange: time_ms(id as i64 + 1),
                                     time_received: time_ms(id as i64 + 1),
@@ -1111,10 +1180,15 @@ fn run() {
 /// `dom` = the input-domain family (cases `d<n>`, own PRNG stream): zero / exact-fit / huge balances (quote 0 / 100 / 2e12,
 /// base 0 / 1), latencies 1 / 500 ms, prices 0.5 / 99.99 / 1e12 and quantities 3 / 1e-8, up to three open and two cancel
 /// requests in one call
-fn gen_case(out: &mut Out, rng: &mut Rng, id: &str, thorough: bool, dom: bool) {
+fn gen_case(out: &mut Out, rng: &mut Rng, id: &str, thorough: bool, dom: bool, shape: bool) {
     out.case(id);
     let k = rng.range(1, 3) as usize;
     let x2 = rng.chance(35);
+    // the configuration-shape family (cases `cfg<n>`, own PRNG stream): the unlinked exchange sorts FIRST (x2 = 2: the
+    // mocked exchange is ExchangeIndex(1)) in 2 of 3 cases; the builder calls in any order / repeated (`sysb`) in 2 of 3
+    let x2_first = shape && rng.chance(66);
+    let x2 = x2 || x2_first;
+    let sysb = shape && (!x2_first || rng.chance(50));
     let quote = if dom { *rng.pick(&["0", "100", "1000", "2000000000000"]) } else { *rng.pick(&["300", "1000", "100000"]) };
     let base = if dom { *rng.pick(&["0", "1", "2"]) } else { *rng.pick(&["2", "10"]) };
     let feed = *rng.pick(&["iter", "stream", "stream", "dflt"]);
@@ -1123,7 +1197,16 @@ fn gen_case(out: &mut Out, rng: &mut Rng, id: &str, thorough: bool, dom: bool) {
     let latency = if dom { *rng.pick(&[0u64, 1, 50, 500]) } else { *rng.pick(&[0u64, 0, 50, 50, 200]) };
     let open_prices: &[&str] = if dom { &["50", "100", "100", "0.5", "99.99", "1000000000000"] } else { &["50", "100"] };
     let open_qtys: &[&str] = if dom { &["1", "1", "2", "0.5", "3", "0.00000001"] } else { &["1", "1", "2", "0.5", "20"] };
-    out.line(format!("sys {feed} {audit} {trading} {k} {} {quote} {base} {latency}", x2 as u8));
+    let x2_tok = if x2_first { 2 } else { x2 as u8 };
+    if sysb {
+        let all = ["f=iter", "f=stream", "a=on", "a=off", "t=on", "t=off"];
+        let n = rng.below(6) as usize;
+        let calls: Vec<&str> = (0..n).map(|_| *rng.pick(&all)).collect();
+        let calls = if calls.is_empty() { "-".to_string() } else { calls.join(",") };
+        out.line(format!("sysb {calls} {k} {x2_tok} {quote} {base} {latency}"));
+    } else {
+        out.line(format!("sys {feed} {audit} {trading} {k} {x2_tok} {quote} {base} {latency}"));
+    }
     let cid_pool = [1u64, 2, 3, 4, 7000, 7001, 9000, 9001];
     let gen_filter = |rng: &mut Rng| -> String {
         match rng.below(6) {
@@ -1285,12 +1368,17 @@ fn generate(seed: u64, n_cases: usize, tier: &str) {
         }
     }
     for c in 0..n_cases {
-        gen_case(&mut out, &mut rng, &format!("r{}", c + 1), thorough, false);
+        gen_case(&mut out, &mut rng, &format!("r{}", c + 1), thorough, false, false);
     }
     // the input-domain family (own PRNG stream, so the cases above stay as they are): one case per 8 random ones
     let mut drng = Rng::new(seed ^ 0x444f_4d53);
     for c in 0..n_cases / 8 {
-        gen_case(&mut out, &mut drng, &format!("d{}", c + 1), thorough, true);
+        gen_case(&mut out, &mut drng, &format!("d{}", c + 1), thorough, true, false);
+    }
+    // the configuration-shape family (own PRNG stream): one case per 8 random ones
+    let mut crng = Rng::new(seed ^ 0x4346_4753);
+    for c in 0..n_cases / 8 {
+        gen_case(&mut out, &mut crng, &format!("cfg{}", c + 1), thorough, false, true);
     }
     out.flush();
 }
